@@ -13,7 +13,7 @@ type genState struct {
 	rng      *common.Rng
 	o        *oDB // oracle state used to pick mostly valid arguments
 	nextMsg  int
-	nextMbox int // remote / name counter
+	nextMbox int  // remote / name counter
 	model    bool // only operations the Coq model covers
 }
 
@@ -436,8 +436,58 @@ func corpusScenarios() []scenario {
 		mk("delete-message-still-in-mailbox", boot, txn{Ops: []op{{K: "DeleteMessages", Ids: []int{1}}}}, txn{Ops: []op{{K: "RemoveMessages", Box: 1, Ids: []int{1}}, {K: "DeleteMessages", Ids: []int{1}}, {K: "GetAllMessageIDs"}}}),
 		mk("remove-1005-messages", txn{Ops: []op{{K: "CreateMailbox", N1: 1, N2: 1, N3: 5, Flags: []string{}}, {K: "CreateMessages", Reqs: plainReqs(1, 1005)}, {K: "AddMessages", Box: 1, Pairs: pairsOf(seq(1, 1005))}}},
 			txn{Ops: []op{{K: "RemoveMessages", Box: 1, Ids: seq(1, 1005)}, {K: "GetMessageCount", Box: 1}}}),
+		mk("create-and-add-with-deleted-flag", boot, txn{Ops: []op{{K: "CreateMailbox", N1: 2, N2: 2, N3: 6, Flags: []string{}},
+			{K: "CreateMessageAndAdd", Box: 1, Reqs: []req{{ID: 4, Remote: 4, Flags: []string{`\Deleted`, "Foo"}}}},
+			{K: "CreateMessageAndAdd", Box: 1, Reqs: []req{{ID: 5, Remote: 5, Flags: []string{`\deleted`}}}},
+			{K: "Snapshot", Box: 1}, {K: "GetMessagesFlags", Ids: []int{4, 5}}, {K: "AddMessages", Box: 2, Pairs: pairsOf([]int{4, 5, 1})},
+			{K: "SetDeleted", Box: 2, Ids: []int{5}, B: true}, {K: "Snapshot", Box: 2}}}),
 		mk("delete-mailbox-subscription", boot, txn{Ops: []op{{K: "DeleteMailbox", N1: 1}, {K: "GetDeletedSubscriptions"}, {K: "GetMessageMailboxes", N1: 1}}}),
 	}
+}
+
+// overlapScenario: several Client.Read calls overlap (the connection pool grows beyond the connection that Init
+// configured), then histories whose result depends on ON DELETE CASCADE run on whatever connection the pool hands out.
+func overlapScenario(ctx *common.Ctx, idx int) scenario {
+	rng := ctx.Rng
+	sc := scenario{Name: fmt.Sprintf("overlap-%d", idx), NoCoq: true, Batch: true}
+	const n = 300
+	var reqs []req
+	for i := 1; i <= n; i++ {
+		q := req{ID: i, Remote: i, Flags: []string{"k" + fmt.Sprint(i%3)}}
+		if i%5 == 0 {
+			q.Flags = append(q.Flags, `\Seen`)
+		}
+		reqs = append(reqs, q)
+	}
+	sc.Txs = append(sc.Txs,
+		txn{Ops: []op{{K: "CreateMailbox", N1: 1, N2: 1, N3: 100, Flags: []string{`\Seen`}, Flags2: []string{`\Seen`}, Flags3: []string{`\Marked`}},
+			{K: "CreateMailbox", N1: 2, N2: 2, N3: 101, Flags: []string{}}}},
+		txn{Ops: []op{{K: "CreateMessages", Reqs: reqs}, {K: "AddMessages", Box: 1, Pairs: pairsOf(seq(1, n))}, {K: "AddMessages", Box: 2, Pairs: pairsOf(seq(1, n/2))}}})
+	next := n
+	live := seq(1, n) // messages still in mailbox 1
+	for p := 0; p < 5; p++ {
+		readers := 2 + rng.Pick(2)
+		sc.Txs = append(sc.Txs, txn{Overlap: readers, Iters: 25, Last: rng.Pick(readers),
+			Ops: []op{{K: "GetMessagesFlags", Ids: seq(1, n)}, {K: "Snapshot", Box: 1}, {K: "FilterContains", Box: 2, Ids: seq(1, n)}, {K: "GetMessageMailboxes", N1: live[0]}, {K: "GetMailboxFlags", Box: 1, N1: 2}}})
+		// a mailbox comes and goes: its flag/attr rows and the membership rows must go with it
+		mb := 10 + p
+		some := live[:3]
+		next++
+		sc.Txs = append(sc.Txs,
+			txn{Ops: []op{{K: "CreateMailbox", N1: mb, N2: mb, N3: 200 + p, Flags: []string{"mf"}, Flags2: []string{"pf"}, Flags3: []string{"at"}},
+				{K: "AddMessages", Box: 3 + p, Pairs: pairsOf(some)},
+				{K: "CreateMessageAndAdd", Box: 3 + p, Reqs: []req{{ID: next, Remote: next, Flags: []string{`\Deleted`, "n"}}}}}},
+			txn{Ops: []op{{K: "DeleteMailbox", N1: mb}, {K: "GetMessageMailboxes", N1: some[0]}, {K: "GetMessageMailboxes", N1: next}, {K: "GetMailboxFlags", Box: 3 + p, N1: 0}}})
+		// messages are purged: their flag rows and membership rows must go with them; the ids come back without flags
+		gone := live[:4]
+		live = live[4:]
+		sc.Txs = append(sc.Txs,
+			txn{Ops: []op{{K: "RemoveMessages", Box: 1, Ids: gone}, {K: "RemoveMessages", Box: 2, Ids: gone}}},
+			txn{Ops: []op{{K: "DeleteMessages", Ids: append(append([]int{}, gone...), next)}, {K: "GetMessagesFlags", Ids: gone}}},
+			txn{Ops: []op{{K: "CreateMessages", Reqs: plainReqs(gone[0], 2)}, {K: "GetMessagesFlags", Ids: gone}, {K: "GetMessageMailboxes", N1: gone[0]}}},
+			txn{Ops: []op{{K: "DeleteMessages", Ids: gone[:2]}}})
+	}
+	return sc
 }
 
 func genScenarios(ctx *common.Ctx) []scenario {
@@ -445,6 +495,9 @@ func genScenarios(ctx *common.Ctx) []scenario {
 	scs = append(scs, corpusScenarios()...)
 	thorough := ctx.Tier == "thorough"
 	scs = append(scs, abortScenario(3))
+	for i := 0; i < ctx.Budget(4, 30); i++ {
+		scs = append(scs, overlapScenario(ctx, i))
+	}
 	if thorough {
 		scs = append(scs, abortScenario(1001))
 	}
